@@ -340,7 +340,10 @@ impl<'a> HeaderValueEncoder<'a> {
     fn format(mut self, words_iter: impl Iterator<Item = &'a str>) -> fmt::Result {
         for next_word in words_iter {
             // a word shaped like an encoded-word would be decoded by the reader
-            let allowed = allowed_str(next_word) && !next_word.contains("=?");
+            let looks_encoded = next_word
+                .split([' ', '\t'])
+                .any(|token| token.len() >= 4 && token.starts_with("=?") && token.ends_with("?="));
+            let allowed = allowed_str(next_word) && !looks_encoded;
             // spaces between two encoded runs would be dropped by the reader
             let joins_encoded_run = !self.encode_buf.is_empty()
                 && next_word.bytes().all(|b| b == b' ' || b == b'\t');
